@@ -43,8 +43,11 @@ def range_number_from_counter(e, label, counter):
     number = counter.get(key, None)
 
     if number is None:
-        number = 1 + sum(1 for o in counter.keys() if o[0] == label)
-        assert number is not None
+        # the lowest number that no open range of this kind is using
+        in_use = set(v for k, v in counter.items() if k[0] == label)
+        number = 1
+        while number in in_use:
+            number += 1
         counter[key] = number
 
     else:
@@ -221,7 +224,10 @@ def make_note_el(note, dur, voice, counter, n_of_staves):
         number = counter.get(tuplet_key, None)
 
         if number is None:
-            number = 1 + sum(1 for o in counter.keys() if o[0] == "tuplet")
+            in_use = set(v for k, v in counter.items() if k[0] == "tuplet")
+            number = 1
+            while number in in_use:
+                number += 1
             counter[tuplet_key] = number
 
         else:
